@@ -980,32 +980,54 @@ CONSTS = {"C18": [dict(name="hampel_factor", file=F + "hampel.rs", regex=r"impl_
 
 
 # ------------------------------------------------------------------------------------------------ generation
+def sig_names(params_txt):
+    """names bound by the parameters of a method signature, in order, `self` excluded, tuple patterns flattened
+    (parameters are bound by POSITION, so renaming one in the source is harmless)"""
+    from rs2coq import lex
+    toks = lex(params_txt); names = []; depth = 0; i = 0; in_type = False
+    while i < len(toks):
+        k, v_ = toks[i]
+        if v_ in ("(", "[", "<"): depth += 1
+        elif v_ in (")", "]", ">"): depth -= 1
+        elif v_ == "," and depth == 0: in_type = False
+        elif v_ == ":" and depth == 0: in_type = True
+        elif not in_type and k == "ident" and v_ not in ("mut", "ref", "self", "_"):
+            if not (i + 1 < len(toks) and toks[i + 1][1] == "::"): names.append(v_)
+        i += 1
+    return names
+
+
+def method_def(file_, impl, fn):
+    body, ptxt = find_method(open(file_).read(), impl, fn)
+    return parse_body(body), sig_names(ptxt)
+
+
 def run_case(ent, case, body_ast, params_txt, assume=None):
     subs = {}
     for sname in ent.get("subs", []):
         for se in (e for es in ENTRIES.values() for e in es if e["name"] == sname or e.get("cls") == sname):
-            sbody, _ = find_method(open(se["file"]).read(), se["impl"], se["fn"])
-            if se["name"] == sname: subs[sname] = (parse_body(sbody), list(se["params"].keys()))
-            if se.get("cls") == sname: subs[(sname, se["fn"])] = (parse_body(sbody), list(se["params"].keys()))
+            if se.get("select"): continue
+            mdef = method_def(se["file"], se["impl"], se["fn"])
+            if se["name"] == sname: subs[sname] = mdef
+            if se.get("cls") == sname: subs[(sname, se["fn"])] = mdef
     if ent.get("cls"):      # calls of the receiver's own (translated) methods
         for se in (e for es in ENTRIES.values() for e in es if e.get("cls") == ent["cls"] and (e["name"] != ent["name"] or ent.get("recursive"))):
-            sbody, _ = find_method(open(se["file"]).read(), se["impl"], se["fn"])
-            subs[(ent["cls"], se["fn"])] = (parse_body(sbody), list(se["params"].keys()))
+            if se.get("select"): continue
+            subs[(ent["cls"], se["fn"])] = method_def(se["file"], se["impl"], se["fn"])
     prims = dict(ent.get("prims") or {}); prims.update(case.get("prims") or {})
     sym = Sym(prims=prims, divmode=ent.get("divmode", "total"), subs=subs)
     for fname, fd in (ent.get("fns") or {}).items():
         ffile, fimpl, ffn, fparams = fd[:4]
-        fbody, _ = find_method(open(ffile).read(), fimpl, ffn)
-        sym.fns[fname] = (parse_body(fbody), fparams) + tuple(fd[4:5])
+        sym.fns[fname] = method_def(ffile, fimpl, ffn) + tuple(fd[4:5])
+        if len(sym.fns[fname][1]) != len(fparams): raise Unsupported("%s takes %d parameters, %d expected" % (fname, len(sym.fns[fname][1]), len(fparams)))
     sym.world = ent.get("world")
     sym.case = case
     sym.case_fuel = case.get("fuel", 1)
     for mname, (mfile, mimpl, mparams) in (ent.get("methods") or {}).items():      # helper methods of the receiver's own class
-        mbody, _ = find_method(open(mfile).read(), mimpl, mname)
-        sym.subs[(ent["cls"], mname)] = (parse_body(mbody), mparams)
+        sym.subs[(ent["cls"], mname)] = method_def(mfile, mimpl, mname)
+        if len(sym.subs[(ent["cls"], mname)][1]) != len(mparams): raise Unsupported("%s takes %d parameters, %d expected" % (mname, len(sym.subs[(ent["cls"], mname)][1]), len(mparams)))
     for (ccls, cname), (cfile, cimpl, cparams) in (ent.get("class_methods") or {}).items():
-        cbody, _ = find_method(open(cfile).read(), cimpl, cname)
-        sym.subs[(ccls, cname)] = (parse_body(cbody), cparams)
+        sym.subs[(ccls, cname)] = method_def(cfile, cimpl, cname)
     sym.loop_summary = ent.get("loop_summary")
     sym.while_handler = ent.get("while_handler")
     if isinstance(ent.get("select"), tuple):          # ("while", k) / ("for", k): only the k-th loop statement of that kind
@@ -1033,8 +1055,12 @@ def run_case(ent, case, body_ast, params_txt, assume=None):
     if ent.get("cls") and selfv[0] == "struct" and "__sub" not in selfv[1]:
         d = dict(selfv[1]); d["__sub"] = ("mark", ent["cls"]); selfv = ("struct", d)
     env.vars["self"] = selfv
-    for name, val in list(ent["params"].items()) + list((ent.get("locals") or {}).items()) + list((case.get("locals") or {}).items()):
-        env.vars[name] = (case.get("params") or {}).get(name, val)
+    src_names = sig_names(params_txt) if not ent.get("select") else list(ent["params"].keys())
+    if len(src_names) != len(ent["params"]): raise Unsupported("the method takes %d parameters (%s), %d expected" % (len(src_names), " ".join(src_names), len(ent["params"])))
+    for (name, val), sname in zip(ent["params"].items(), src_names):
+        env.vars[sname] = (case.get("params") or {}).get(name, val)
+    for name, val in list((ent.get("locals") or {}).items()) + list((case.get("locals") or {}).items()):
+        env.vars[name] = val
     from rs2coq import Return
     from rs2coq import Panics
     try:
@@ -1125,10 +1151,7 @@ def vars_plain(vs):
 def translate_entry(ent):
     src = open(ent["file"]).read()
     body_txt, params_txt = find_method(src, ent["impl"], ent["fn"])
-    # parameter names must be the ones the entry expects (a renamed parameter is a translation failure, not a silent miss)
-    for pname in ent["params"]:
-        if not re.search(r"\b%s\b" % re.escape(pname), params_txt):
-            raise Unsupported("parameter `%s` not found in the signature (%s)" % (pname, " ".join(params_txt.split())))
+    # parameters are bound by position (run_case): a renamed parameter is harmless, a changed arity is a translation failure
     ast = parse_body(body_txt)
     text = ["(* generated by translator/bodies.py from %s (%s::%s) -- do not edit *)\n" % (ent["file"], ent["impl"], ent["fn"]),
             "From Coq Require Import NArith List.\nImport ListNotations.\nFrom Signalo Require Import Base.Arith Base.Opt Base.Machine Model.Generic %s.\n%s" % (ent.get("imports", ""), ent.get("preamble", ""))]
